@@ -1,6 +1,7 @@
 // C15 -- hex and Base64 codecs round-trip and decode strictly within capacity.
 // Oracle: ref/codecs.hpp (table-driven encoder, strict decoder model).
 #include "vh_main.hpp"
+#include "giant.hpp"
 #include "codecs.hpp"
 using namespace vh;
 
@@ -208,7 +209,58 @@ void explore_mutations(Ctx &ctx) {
         }
 }
 
+// ------------------------------------------------------------------ texts of 4 GiB and more (thorough tier, non-sanitizer build, first round)
+// 3 GiB + 1 bytes encode to 2^32 + 4 Base64 characters, 2^31 + 1 bytes to 2^32 + 2 hex digits: lengths and positions beyond 32 bits.  The
+// input is a sparse mapping with a few poked bytes, the text is real memory; the text is decoded back into a second sparse-then-written map.
+struct GiantCase { int codec; size_t len; KV kv() const { KV k; k.s("kind", "giant").u("codec", codec).u("len", len); return k; } };
+uint64_t g_giant_skipped = 0;
+bool run_giant(const GiantCase &c, std::string &msg) {
+    char b[300];
+    size_t need = c.codec == 0 ? c.len * 2 + 1 : sodium_base64_encoded_len(c.len, c.codec);
+    size_t quanta = c.len / 3, rem = c.len % 3, want_need = c.codec == 0 ? c.len * 2 + 1 : quanta * 4 + (rem ? ((c.codec & 2) ? rem + 1 : 4) : 0) + 1;
+    if (need != want_need) { snprintf(b, sizeof b, "encoded length of %zu bytes (%s) is reported as %zu, expected %zu", c.len, codec_name(c.codec), need, want_need); msg = b; return false; }
+    if (c.codec != 0 && sodium_base64_ENCODED_LEN(c.len, c.codec) != want_need) { msg = "sodium_base64_ENCODED_LEN disagrees for a length above 2^31"; return false; }
+    if (!giant::have_memory(need + c.len)) { g_giant_skipped++; return true; }
+    giant::Map in(c.len), text(need + 16), back(c.len + 16);
+    if (!in.ok() || !text.ok() || !back.ok()) { g_giant_skipped++; return true; }
+    in.poke(); in.p[c.len - 1] = 0xfe; in.p[c.len - 2] = 0x7d;
+    memset(text.p + need - 1, 0x55, 9);
+    char *r = c.codec == 0 ? sodium_bin2hex((char *) text.p, need, in.p, c.len) : sodium_bin2base64((char *) text.p, need, in.p, c.len, c.codec);
+    if (r != (char *) text.p) { snprintf(b, sizeof b, "%s encoder over %zu bytes did not return the output pointer", codec_name(c.codec), c.len); msg = b; return false; }
+    if (text.p[need - 1] != 0 || text.p[need] != 0x55) { snprintf(b, sizeof b, "%s encoder over %zu bytes: no terminator at the documented length %zu (byte there: %02x, byte after: %02x)", codec_name(c.codec), c.len, need - 1, text.p[need - 1], text.p[need]); msg = b; return false; }
+    // windows of the text against the model (window starts on a quantum / pair boundary)
+    const size_t G = (size_t) 1 << 32;
+    for (size_t tpos : { (size_t) 0, G - 64, G, need - 1 - (c.codec == 0 ? 40 : 40) }) {
+        size_t unit_b = c.codec == 0 ? 1 : 3, unit_t = c.codec == 0 ? 2 : 4;
+        size_t q = tpos / unit_t; size_t bpos = q * unit_b; if (bpos >= c.len) continue;
+        size_t nb = std::min<size_t>(c.len - bpos, 30);
+        Bytes chunk(in.p + bpos, in.p + bpos + nb);
+        bool last = bpos + nb == c.len;
+        if (!last) { nb = nb / unit_b * unit_b; chunk.resize(nb); }
+        std::string w = c.codec == 0 ? ref::hex_encode(chunk) : ref::b64_encode(chunk, last ? c.codec : (c.codec | 2));
+        if (memcmp(text.p + q * unit_t, w.data(), w.size()) != 0) { snprintf(b, sizeof b, "%s encoding of %zu bytes differs from the specification in the text at offset %zu", codec_name(c.codec), c.len, q * unit_t); msg = b; return false; }
+    }
+    size_t bl = 0; const char *end = nullptr;
+    int rc = c.codec == 0 ? sodium_hex2bin(back.p, c.len, (char *) text.p, need - 1, nullptr, &bl, &end) : sodium_base642bin(back.p, c.len, (char *) text.p, need - 1, nullptr, &bl, &end, c.codec);
+    if (rc != 0 || bl != c.len || end != (char *) text.p + need - 1) { snprintf(b, sizeof b, "%s decoder over a %zu-character text returned %d, length %zu (expected %zu), end offset %zu", codec_name(c.codec), need - 1, rc, bl, c.len, end ? (size_t) (end - (char *) text.p) : 0); msg = b; return false; }
+    for (size_t pos : { (size_t) 0, (size_t) 5, G - 70, G - 1, G, G + 1, c.len - 1, c.len - 2, c.len / 2 + 3 }) if (pos < c.len && back.p[pos] != in.p[pos]) { snprintf(b, sizeof b, "%s: decode(encode(x)) differs from x at byte %zu of %zu", codec_name(c.codec), pos, c.len); msg = b; return false; }
+    return true;
+}
+void explore_giant(Ctx &ctx) {
+    if (!ctx.thorough() || !giant::fast_build() || !giant::first_round()) { ctx.notes["giant_texts"] = "thorough tier, non-sanitizer build, first round only"; return; }
+    uint64_t idx = 0;
+    for (int codec : { 1, 7, 0, 3, 5 }) {
+        uint64_t i = idx++;
+        if (ctx.worker != (int) (i % (uint64_t) std::min(ctx.nworkers, 2))) continue;       // ~7 GiB of real memory per case
+        size_t len = codec == 0 ? ((size_t) 1 << 31) + 1 : ((size_t) 3 << 30) + (size_t) (codec == 1 ? 1 : codec == 7 ? 2 : 3);
+        GiantCase c{ codec, len };
+        exec_case(ctx, c, run_giant, mix64(codec, len), true);
+    }
+    ctx.notes["giant_texts_skipped_no_memory"] = std::to_string(g_giant_skipped);
+}
+
 bool replay(const KV &k, std::string &msg) {
+    if (k.gs("kind") == "giant") { GiantCase c{ (int) k.gu("codec"), (size_t) k.gu("len") }; return run_giant(c, msg); }
     if (k.gs("kind") == "enc") { EncCase c{ (int) k.gu("codec"), k.gb("bin"), (size_t) k.gu("extra") }; return run_enc(c, msg); }
     DecCase c = DecCase::from(k); return run_dec(c, msg);
 }
@@ -217,6 +269,7 @@ bool replay(const KV &k, std::string &msg) {
 
 std::vector<Sub> vh_subs() {
     return {
+        { "giant_texts", explore_giant, replay },
         { "encode", explore_encode, replay },
         { "mutations", explore_mutations, replay },
         { "exhaustive", explore_exhaustive, replay },
